@@ -451,11 +451,11 @@ func (s *serverSocket) registerAckHandler(f any, timeout time.Duration) (id uint
 	id = s.nsp.nextAckID()
 	s.debug.Log("Registering ack with ID", id)
 	if timeout == 0 {
-		s.acksMu.Lock()
 		h, err := newAckHandler(f, false)
 		if err != nil {
 			panic(err)
 		}
+		s.acksMu.Lock()
 		s.acks[id] = h
 		s.acksMu.Unlock()
 		return
